@@ -50,6 +50,13 @@ def gen_tag(rng):
 
 
 def run(ctx, model):
+    # route paths a driver emits after other calls still denote the configured route (stateful, driver level)
+    from props import c14 as _c14
+    from props import transcripts as _tr
+    _lines, _pend = [], []
+    _c14.run_route_after(ctx, model, _lines, _pend, "C09",
+                         [("10.0.0.1/bp/0", [(1, 0)]), ("10.0.0.1/bp/1/enet/10.11.12.13/bp/0", [(1, 1), (2, "10.11.12.13"), (1, 0)])])
+    _tr.flush(ctx, model, _lines, _pend)
     import pycomm3
     from pycomm3.cip import data_types as dt
     from pycomm3.packets.util import request_path, tag_request_path
